@@ -57,6 +57,18 @@ CHECKS = {
    technique="TLA+ Relay.tla model-checked with TLC (AllRelayedBeforeEOF, ExitReported, liveness Ends) over every interleaving of child, copiers, runner, closer and consumer; its shapes replayed on the real CmdShell with a real child process at several volumes and consumer paces",
    text="Relay.tla models the child's two bounded kernel pipes, the two copiers into one rendezvous pipe, the runner (start / wait), the closer and a consumer reading at its own pace; TLC checks that at end-of-file everything written has been received in per-stream order and that the exit status is reported. Each shape x exit status is run on the real CmdShell with a helper child whose every output byte encodes its stream and offset, with chunk sizes from 12 B to 70 KB, fast / slow / late consumers, exit delays and stdin use, several times each.",
    note="The OS scheduler inside os/exec cannot be gated: configurations are run repeatedly and any lossy run counts. Trusted: the helper child built from /verif."),
+ "C09": dict(level="exploration", design="DESIGN.md §6 C09, §4.2",
+   technique="TLA+ Routes.tla (mux routing, path cleaning, file resolution) checked with TLC over every token-sequence target x configuration; outcomes used as oracle for a real hsrv over raw TLS; hostile spellings checked against canary files",
+   text="Routes.tla transcribes the route table, the mux's path cleaning and the file server's resolution; TLC enumerates all targets of up to 3 (quick) / 4 (thorough) tokens (tree names, missing, dot segments, empty segments, endpoint words, ids) x final slash x {unset, single file, plain tree, tree with files named like the endpoints}, checks Confined / SingleFile / Unset404 / EndpointsKeepMeaning and emits the outcome; every target is requested from a real server (redirects followed) and classified by the broker's own connect records, body content, listing or 404; hostile spellings are only required never to disclose canary files placed above, beside and similar to the tree; every request that reaches the file handler must be reported.",
+   note="Targets are a class abstraction with seeded hostile spellings; symbolic links leaving the tree are not generated."),
+ "C10": dict(level="exploration", design="DESIGN.md §6 C10, §4.2, §8",
+   technique="TLA+ Notices.tla enumerates (reporting action, client-controlled field, format-significant token sequence) with TLC; each case sent as a real request to a real hsrv and the operator lines compared (specification as oracle)",
+   text="Every reporting action reachable by a request (file requested, sent script, input/output connected, duplicate and wrong-ID refusals) x every client-controlled field (path, query, c2 parameter, c2 header, Host, callback ID) x every sequence of up to 2 (quick) / 3 (thorough) tokens from 20 format-significant tokens (verbs, flags, widths, indexes, %%, URL escapes, lone %) is sent over TLS; the notice must contain the text as sent, as URL-decoded or in Go-quoted form, and no formatter artefact.",
+   note="The clause about every call site that passes a computed format string is a static property of program text and is not decided (DESIGN.md §8); only sites reached by the enumerated reporting actions are."),
+ "C20": dict(level="fault_enumeration", design="DESIGN.md §6 C20, §4.5",
+   technique="TLA+ Main.tla (start-up as a sequential program over fault sets) checked with TLC; every configuration created for real and run with the real binary on a pty or without a terminal (replay conformance)",
+   text="Main.tla orders the start-up steps and states NeverCrashes, CleanFailure, FailsWhenItMust, TermiosRestored; TLC enumerates every fault set of size <= 2 x informational flag x TTY yes/no x exit key and emits the outcomes the statement allows; each configuration is produced with real files, bound ports and a pseudo-terminal (or a session without one) and the real binary is run: exit status, no panic text or fatal signal, the message names a cause that is present, termios before start equals termios after exit.",
+   note="Fault classes are the enumerated ones; permission faults use ENOTDIR because checks run as root. -icanhazip fails because the sandbox is offline."),
 }
 
 PENDING = {}
